@@ -62,6 +62,9 @@ pub struct EnvState {
     pub acc_failed: bool,
     // ---- file model (harness/_env.rs::fsmodel replaces tokio::fs in storage.rs) and hook event log
     pub fs_exists: bool,
+    /// per file type (0 account, 1 private key, 2 certificate): does the file exist (used by the cut of get_file_path + is_file in check_files)
+    pub fs_type_exists: [bool; 3],
+    pub fs_path_error: [bool; 3],
     pub fs_len: usize,
     pub fs_data: [u8; 4],
     pub fs_create_mode: u32,
@@ -100,6 +103,8 @@ pub static mut ENV: EnvState = EnvState {
     acc_ev_n: 0,
     acc_failed: false,
     fs_exists: false,
+    fs_type_exists: [false; 3],
+    fs_path_error: [false; 3],
     fs_len: 0,
     fs_data: [0; 4],
     fs_create_mode: 0,
